@@ -8,11 +8,11 @@ position of the packet sequence; the byte-level cut points are mapped to these b
 namespace XmppVerif.Props.C12
 open XmppVerif.Model.Recv XmppVerif.Spec.Recv XmppVerif.Spec.RecvObs XmppVerif.Props.Recv
 
-/-- **Exactly once**: whatever precedes the loss, unless the server closed the stream gracefully, the run raises
+/-- **Exactly once**: whatever precedes the end of the stream (loss or graceful close), the run raises
 exactly one Disconnected event, and it carries the current stream-management state (id and stanza count). -/
-theorem C12_one_disconnected_event (s : St) (ins : List In) (h : isClose (stopper ins) = false) :
-    discEvents (clientRecv s ins).2 = [(s.smId, s.inbound + stanzaCount (processed ins))] := by
-  rw [(client_facts ins s).disc, h]; rfl
+theorem C12_one_disconnected_event (s : St) (ins : List In) :
+    discEvents (clientRecv s ins).2 = [(s.smId, s.inbound + stanzaCount (processed ins))] :=
+  (client_facts ins s).disc
 
 /-- exactly one error callback for the loss (plus one per stream error received before it) -/
 theorem C12_one_error_callback (s : St) (ins : List In) (h : isClose (stopper ins) = false) :
@@ -40,7 +40,7 @@ theorem C12_every_cut_position (s : St) (pre post : List In) (h : ∀ i ∈ pre,
     simp [List.dropWhile, stops]
   have hc : isClose (stopper (pre ++ .cut :: post)) = false := by rw [hs]; rfl
   refine ⟨?_, ?_, ?_⟩
-  · rw [C12_one_disconnected_event _ _ hc, hp]
+  · rw [C12_one_disconnected_event, hp]
   · rw [C12_one_error_callback _ _ hc, hp]
   · rw [XmppVerif.Props.C05.C05_client_exactly_once, hp]
 
@@ -66,7 +66,7 @@ theorem C12_eof (s : St) (pre : List In) (h : ∀ i ∈ pre, stops i = false) :
   have hs : stopper pre = none := by
     unfold stopper
     rw [dropWhile_all _ _ (by intro i hi; simp [h i hi])]; rfl
-  rw [C12_one_disconnected_event _ _ (by rw [hs]; rfl), hp]
+  rw [C12_one_disconnected_event, hp]
 
 /-- a failed write of an `<a/>` answer is a detected loss too: one event, one callback (fix F-12) -/
 theorem C12_failed_answer_reported (s : St) (rest : List In) :
@@ -96,7 +96,7 @@ theorem C12_oracle_accepts_model (c : Case) (hc : c.client = true) : holdsC12 c 
     | true => left; rfl
     | false =>
       right
-      exact ⟨by rw [f.disc, hcl]; rfl, by rw [f.errh, hcl]; rfl⟩
+      exact ⟨f.disc, by rw [f.errh, hcl]; rfl⟩
 
 -- non-vacuity
 example : discEvents (clientRecv ⟨"sm", 2⟩ [.pkt (.msg "1") false, .pkt .r false, .cut]).2 = [("sm", 3)] := by decide
